@@ -72,6 +72,11 @@ type Stream struct {
 	// Contains frames waiting to be sent to the peer. Is emptied by AsyncFlush or Flush.
 	pendingFrames []*Frame
 
+	// True while AsyncFlush has a write in flight on the transport; callers that arrive meanwhile wait in
+	// asyncFlushWaiters and are completed by the flush in flight.
+	asyncFlushing     bool
+	asyncFlushWaiters []func(err error)
+
 	// Optional callback invoked when a control frame is received.
 	controlCallback ControlCallback
 
@@ -164,6 +169,8 @@ func (s *Stream) reset() {
 	s.conn = nil
 	s.src.Reset()
 	s.dst.Reset()
+	s.asyncFlushing = false
+	s.asyncFlushWaiters = nil
 }
 
 // Returns the stream through which IO is done.
@@ -740,19 +747,42 @@ func (s *Stream) Flush() (err error) {
 //
 // This call does not block.
 func (s *Stream) AsyncFlush(callback func(err error)) {
+	if s.asyncFlushing {
+		// A flush is already in flight on the transport (for example an application write while the read path wants to
+		// send a Pong): the transport accepts one write at a time, so do not start a second one. The flush in flight
+		// also writes whatever has been queued in the meantime and then completes this caller.
+		s.asyncFlushWaiters = append(s.asyncFlushWaiters, callback)
+		return
+	}
+
+	s.asyncFlush(callback)
+}
+
+func (s *Stream) asyncFlush(callback func(err error)) {
 	if len(s.pendingFrames) == 0 {
 		callback(nil)
 	} else {
 		sent := s.pendingFrames[0]
 		s.pendingFrames = s.pendingFrames[1:]
 
+		s.asyncFlushing = true
 		s.codecConn.AsyncWriteNext(*sent, func(err error, _ int) {
+			s.asyncFlushing = false
 			s.releaseFrame(sent)
 
-			if err != nil {
+			waiters := s.asyncFlushWaiters
+			s.asyncFlushWaiters = nil
+			done := func(err error) {
 				callback(err)
+				for _, waiter := range waiters {
+					waiter(err)
+				}
+			}
+
+			if err != nil {
+				done(err)
 			} else {
-				s.AsyncFlush(callback)
+				s.asyncFlush(done)
 			}
 		})
 	}
